@@ -63,6 +63,8 @@ def run(ck):
 
 
 def replay(rp):
+    if 'warm_round' in rp.get('input', {}):
+        return wk.warm_replay(rp['input'])
     k = wk.from_description(rp['input'])
     try:
         w = wk.run_case(k)
